@@ -517,7 +517,8 @@ def run_case(case, idx, seed, filters, sp):
             log.append({"a": "Return", "res": out})
     hdr = {"srv": srv, "job": job, "fault": case["fault"]}
     return {"id": str(case.get("id", idx)), "hdr": hdr, "ev": log,
-            "info": {"names": names, "targets": folder_paths, "site_url": site_url, "drive_id": drive_id,
+            "info": {"case": {k: x for k, x in case.items() if k != "idx"}, "idx": idx,
+                     "names": names, "targets": folder_paths, "site_url": site_url, "drive_id": drive_id,
                      "dates": [[str(a), str(b)] for a, b in dates]}}
 
 
@@ -767,6 +768,8 @@ def _repo_test_cases():
 def run(ctx):
     ev, v = ctx.ev, ctx.v
     thorough = ctx.thorough
+    if ctx.replay:
+        return _replay(ctx)
     T0 = time.time()
     lap = lambda what: ctx.log(f"[{time.time() - T0:6.1f}s] {what}")
     # ---- 1. theorem: all small libraries x calls x one fault anywhere + retry
@@ -929,6 +932,45 @@ def run(ctx):
               "parent_path of list_files_in_folder results, overlapping folder targets, sub-second timestamps, naive datetimes "
               "and glob details beyond '*'/'?' are DON'T-CAREs (Graph.tla / GraphFilter.tla headers)",
               "an HTTPError's own body stream is owned by the exception and not counted as an opened response")
+
+
+def _replay(ctx):
+    """./check C18 --replay replays/C18/<hash>.json : re-run exactly that case (same VERIF_SEED as recorded)."""
+    doc = json.loads(Path(ctx.replay).read_text())
+    info = ((doc.get("case") or {}).get("info") or {})
+    if "case" not in info:
+        raise MachineryError("replay file carries no listing case (FileFilter.matches violations are replayed by a normal run)")
+    case = dict(info["case"], idx=info.get("idx", 0))
+    seed = doc.get("seed", ctx.seed)
+    filters = [case["job"]["flt"]] if case["job"].get("flt") else []
+    if not filters:        # the filter was a seed-dependent choice from TLC's lattice: enumerate it again
+        fstates = _gen(ctx, "filter", 0, 1, ["all"], "filter")
+        filters = [json.loads(x) for x in sorted({json.dumps(j["F"], sort_keys=True) for _, j, _ in fstates})]
+    inp, out = ctx.scratch / "replay.in.json", ctx.scratch / "replay.out.json"
+    inp.write_text(json.dumps({"seed": seed, "filters": filters, "cases": [case], "match": None}))
+    p = subprocess.run([PY, "-m", "mbv.props.c18", "worker", str(inp), str(out)], env=child_env(), cwd=str(VERIF),
+                       capture_output=True, text=True)
+    if p.returncode != 0:
+        raise MachineryError("C18 worker failed:\n" + p.stderr[-3000:])
+    t = json.loads(out.read_text())["traces"][0]
+    bs = validate("GraphTrace", _trace_cfg(True), [_for_tlc(t)], scratch=ctx.scratch, parallel=1, min_chunk=1)
+    bl = validate("GraphTrace", _trace_cfg(False), [_for_tlc(t)], scratch=ctx.scratch, parallel=1, min_chunk=1)
+    ctx.ev.tlc_counts("GraphTrace: replayed case (strict + property level)", bs.distinct + bl.distinct, bs.states + bl.states)
+    ctx.ev.replayed(1)
+    ctx.ev.sample({"id": t["id"], "events": [_show_event(e) for e in t["ev"]][:60]})
+    vs, vl = bs.verdicts[0], bl.verdicts[0]
+    for k, e in enumerate(t["ev"]):
+        ctx.log(f"{k:3d} {_show_event(e)}" + ("   <-- walker model stops here" if not vs.accepted and k == vs.reached else "")
+                + ("   <-- property-level specification stops here" if not vl.accepted and k == vl.reached else ""))
+    if vl.accepted:
+        ctx.v.ok(1)
+        if not vs.accepted:
+            ctx.log("NOTE model drift: strict pass rejects, property level accepts")
+    else:
+        e = t["ev"][vl.reached] if vl.reached < len(t["ev"]) else {}
+        ctx.v.violation(what=f"replayed case {t['id']}: event #{vl.reached} {_show_event(e) if e else ''} violates the "
+                             "property-level specification", case={"id": t["id"], "hdr": t["hdr"], "info": t["info"]},
+                        observed=[_show_event(x) for x in t["ev"] if x["a"] in ("Raise", "Return")], where="sharepoint_io/client.py")
 
 
 def _show_filter(F):
